@@ -6,6 +6,7 @@ extractor).  Nothing of /repo is executed.
 import glob
 import hashlib
 import json
+import re
 import os
 import shutil
 import subprocess
@@ -206,6 +207,10 @@ IMPLICIT_ONLY = {"ImplicitCastExpr", "ParenExpr", "ExprWithCleanups", "Materiali
 
 NORMALIZE = os.environ.get("PSV_NO_NORMALIZE") is None
 NORMALIZE_REL = os.environ.get("PSV_NO_NORMALIZE_REL") is None
+NORMALIZE_ALIAS = os.environ.get("PSV_NO_NORMALIZE_ALIAS") is None
+NORMALIZE_LOOPS = os.environ.get("PSV_NO_NORMALIZE_LOOPS") is None
+WALK_INTO_LAMBDAS = os.environ.get("PSV_WALK_LAMBDAS") is not None
+NORMALIZE_CALLS = os.environ.get("PSV_NO_NORMALIZE_CALLS") is None
 
 
 class Function:
@@ -323,6 +328,254 @@ class Function:
                         n["ch"] = list(cn["ch"])
                         n["normalized"] = "negation folded"
         self._parent = None
+        if NORMALIZE_LOOPS:
+            self._while_to_for()
+            self._unbrace()
+        if NORMALIZE_ALIAS and self.cfg:
+            self._inline_const_aliases()
+
+    # N9: braces around a single statement that is the body of a loop or a branch of an if are dropped (`if (c) { x; }` is `if (c) x;`);
+    #     a lone declaration keeps its braces (it has a scope of its own).
+    def _unbrace(self):
+        for i, n in enumerate(self.nodes):
+            if n["k"] not in ("IfStmt", "ForStmt", "WhileStmt", "DoStmt", "CXXForRangeStmt"):
+                continue
+            for key in ("then", "else", "body"):
+                b = n.get(key, -1)
+                if b is None or b < 0:
+                    continue
+                bn = self.nodes[b]
+                kids = [x for x in bn["ch"] if x >= 0]
+                if bn["k"] == "CompoundStmt" and len(kids) == 1 and self.nodes[kids[0]]["k"] not in ("DeclStmt", "CompoundStmt"):
+                    n[key] = kids[0]
+                    n["ch"] = [kids[0] if x == b else x for x in n["ch"]]
+                    n.setdefault("unbraced", []).append(key)
+        self._parent = None
+
+    # N8: `init; while (cond) { body...; step; }` is `for (init; cond; step) { body... }` when init sets (or declares) the variable that
+    #     step advances, that variable occurs in cond, the body has at least one more statement and no `continue` of its own.
+    def _while_to_for(self):
+        def step_var(x):
+            n = self.nodes[self.strip(x, casts=False)] if x >= 0 else None
+            if n is None:
+                return None
+            if n["k"] == "UnaryOperator" and n.get("op") in ("++", "--"):
+                t = self.nodes[self.strip(n["ch"][0])]
+            elif n["k"] == "CompoundAssignOperator" and n.get("op") in ("+=", "-="):
+                t = self.nodes[self.strip(n["ch"][0])]
+            else:
+                return None
+            return t["decl"].get("id") if t["k"] == "DeclRefExpr" and t["decl"].get("kind") == "Var" else None
+
+        def own_continue(body):
+            st = [body]
+            while st:
+                x = st.pop()
+                if x < 0:
+                    continue
+                k = self.nodes[x]["k"]
+                if k == "ContinueStmt":
+                    return True
+                if k in ("ForStmt", "WhileStmt", "DoStmt", "CXXForRangeStmt", "LambdaExpr"):
+                    continue
+                st.extend(self.ch(x))
+            return False
+        for c, cn in enumerate(self.nodes):
+            if cn["k"] != "CompoundStmt":
+                continue
+            kids = cn["ch"]
+            for j in range(1, len(kids)):
+                w = kids[j]
+                if w < 0 or self.nodes[w]["k"] != "WhileStmt":
+                    continue
+                wn = self.nodes[w]
+                body = wn.get("body", -1)
+                if body < 0 or self.nodes[body]["k"] != "CompoundStmt" or len(self.ch(body)) < 2 or own_continue(body):
+                    continue
+                last = self.ch(body)[-1]
+                v = step_var(last)
+                if v is None or not any(self.nodes[x]["k"] == "DeclRefExpr" and self.nodes[x]["decl"].get("id") == v for x in self.walk(wn["cond"])):
+                    continue
+                ini = kids[j - 1]
+                inn = self.nodes[ini] if ini >= 0 else None
+                ok = False
+                if inn and inn["k"] == "DeclStmt" and len(inn["decls"]) == 1 and inn["decls"][0].get("id") == v and inn["decls"][0].get("init", -1) >= 0:
+                    ok = True
+                elif inn and inn["k"] == "BinaryOperator" and inn.get("op") == "=":
+                    l = self.nodes[self.strip(inn["ch"][0])]
+                    ok = l["k"] == "DeclRefExpr" and l["decl"].get("id") == v
+                if not ok:
+                    continue
+                bn = self.nodes[body]
+                bn["ch"] = [x for x in bn["ch"] if x != last]
+                wn["k"] = "ForStmt"
+                wn["init"], wn["inc"] = ini, last
+                wn["ch"] = [ini, -1, wn["cond"], last, body]
+                wn["normalized"] = "while"
+                kids[j - 1] = -1
+            cn["ch"] = [x for x in kids if x >= 0]
+        self._parent = None
+
+    # N6: a const-qualified arithmetic local initialised with a plain read of memory (`const uint64_t n = nknots[i];`,
+    #     `const int nk = int(nknots);`, `const uint64_t old = this->naxes[dim];`) is a name for that read: every use is replaced by a copy
+    #     of the initialiser, provided nothing that the read depends on can be written between the declaration and the use (a store to
+    #     a variable, field or array of one of the names in the path, a call that receives one of them by address or non-const
+    #     reference, or any call to a non-const member function of the enclosing class).  Otherwise the local is left alone.
+    _PATH_KINDS = {"DeclRefExpr", "MemberExpr", "ArraySubscriptExpr", "CXXThisExpr", "IntegerLiteral", "ImplicitCastExpr", "ParenExpr",
+                   "CStyleCastExpr", "CXXFunctionalCastExpr", "CXXStaticCastExpr"}
+
+    def _path_names(self, i):
+        """names a pure access path reads (variables, fields), or None if node i is not a pure access path."""
+        names = set()
+        for x in self.walk(i):
+            n = self.nodes[x]
+            if n["k"] not in self._PATH_KINDS:
+                return None
+            if n["k"] == "DeclRefExpr":
+                if n["decl"].get("kind") not in ("Var", "ParmVar"):
+                    return None
+                names.add(n["decl"]["name"])
+            elif n["k"] == "MemberExpr":
+                names.add(n["member"])
+        return names
+
+    def _writes_between(self, names, pd, pu, pos):
+        """is there a CFG element that may write one of `names` on a path from position pd (declaration) to position pu (use)?"""
+        def lhs_names(l):
+            out = set()
+            for x in self.walk(l):
+                n = self.nodes[x]
+                if n["k"] == "DeclRefExpr":
+                    out.add(n["decl"]["name"])
+                elif n["k"] == "MemberExpr":
+                    out.add(n["member"])
+            return out
+        after_decl = self.reachable_blocks(pd[0])
+        for b, blk in self.blocks.items():
+            if b not in after_decl:
+                continue
+            for j, e in enumerate(blk["elems"]):
+                if e.get("kind") != "stmt":
+                    continue
+                x = e["n"]
+                n = self.nodes[x]
+                k = n["k"]
+                hit = False
+                if (k in ("BinaryOperator", "CompoundAssignOperator") and n.get("op", "").endswith("=") and n["op"] not in ("==", "!=", "<=", ">=")) \
+                        or (k == "UnaryOperator" and n.get("op") in ("++", "--")):
+                    l = self.strip(n["ch"][0])
+                    # the stored-to location: outermost variable/field of the left-hand side and everything it is indexed through
+                    hit = bool(lhs_names(l) & names and self._lhs_root_names(l) & names)
+                elif "callee" in n or n.get("indirect"):
+                    cal = n.get("callee") or {}
+                    if cal.get("cls") and cal.get("cls") == self.cls and cal.get("mkind") not in ("ctor",) and not cal.get("isConst", False) \
+                            and not cal.get("isStatic") and cal.get("name") not in ("allocate", "deallocate"):
+                        hit = True
+                    for a in n["ch"][1:] if k != "CXXConstructExpr" else n["ch"]:
+                        if a < 0:
+                            continue
+                        an = self.nodes[self.strip(a, casts=False)]
+                        t = self.nodes[a].get("t", "")
+                        if an["k"] == "UnaryOperator" and an.get("op") == "&":
+                            if self._lhs_root_names(an["ch"][0]) & names:
+                                hit = True
+                        elif "*" in t and "const" not in t:
+                            if self._lhs_root_names(a) & names:
+                                hit = True
+                if not hit:
+                    continue
+                ps = (b, j)
+                # after the declaration?
+                if ps[0] == pd[0] and ps[1] <= pd[1] and pd[0] not in self.reachable_blocks_from_succs(pd[0]):
+                    continue
+                # can the use be reached from the write without passing the declaration again?
+                if ps[0] == pu[0] and ps[1] < pu[1]:
+                    return True
+                if pu[0] in self.reachable_blocks_from_succs(ps[0], avoid=(pd[0],) if ps[0] != pd[0] else ()):
+                    return True
+        return False
+
+    def _lhs_root_names(self, l):
+        """name of the variable/field that designates the object a store goes to (x, x[i], x->f, *x: x / f)."""
+        out = set()
+        l = self.strip(l)
+        n = self.nodes[l]
+        while True:
+            if n["k"] == "ArraySubscriptExpr":
+                l = self.strip(n["ch"][0]); n = self.nodes[l]
+            elif n["k"] == "UnaryOperator" and n.get("op") == "*":
+                l = self.strip(n["ch"][0]); n = self.nodes[l]
+            elif n["k"] == "CXXOperatorCallExpr" and n.get("opcall") == "[]":
+                l = self.strip(n["ch"][1]); n = self.nodes[l]
+            else:
+                break
+        if n["k"] == "DeclRefExpr":
+            out.add(n["decl"]["name"])
+        elif n["k"] == "MemberExpr":
+            out.add(n["member"])
+        return out
+
+    def reachable_blocks_from_succs(self, b, avoid=()):
+        seen = set()
+        st = list(self.succs(b))
+        while st:
+            x = st.pop()
+            if x in seen or x in avoid:
+                continue
+            seen.add(x)
+            st.extend(self.succs(x))
+        return seen
+
+    def _copy_subtree(self, i):
+        m = {}
+        for x in list(self.walk(i)):
+            m[x] = len(self.nodes)
+            self.nodes.append(dict(self.nodes[x]))
+        for x, y in m.items():
+            n = self.nodes[y]
+            n["ch"] = [m.get(c, c) for c in n["ch"]]
+            for key in ("cond", "then", "else", "init", "inc", "body"):
+                if key in n and n[key] in m:
+                    n[key] = m[n[key]]
+            n["copyOf"] = x
+        return m[i]
+
+    def _inline_const_aliases(self):
+        pos = None
+        for i in list(self.walk()):
+            n = self.nodes[i]
+            if n["k"] != "DeclStmt":
+                continue
+            for d in n.get("decls", []):
+                t = d.get("type", "")
+                ct = d.get("ctype", t)
+                if d.get("dk") != "Var" or not t.startswith("const ") or d.get("init", -1) < 0 or any(c in ct for c in "*&[<"):
+                    continue
+                names = self._path_names(d["init"])
+                if not names or self.nodes[self.strip(d["init"])]["k"] == "IntegerLiteral":
+                    continue
+                if pos is None:
+                    pos = self.node_positions()
+                if i not in pos:
+                    continue
+                uses = [x for x in self.walk() if self.nodes[x]["k"] == "DeclRefExpr" and self.nodes[x]["decl"].get("id") == d["id"]
+                        and self.nodes[x]["decl"].get("kind") == "Var"]
+                ok = bool(uses)
+                for u in uses:
+                    pu = pos.get(u)
+                    if pu is None or self._writes_between(names, pos[i], pu, pos):
+                        ok = False
+                        break
+                if not ok:
+                    continue
+                for u in uses:
+                    c = self._copy_subtree(d["init"])
+                    un = self.nodes[u]
+                    un["aliasOf"] = d["name"]
+                    un["k"] = "ParenExpr"
+                    un["ch"] = [c]
+                d["inlined"] = True
+        self._parent = None
 
     # ---- tree
     @property
@@ -357,6 +610,8 @@ class Function:
                 continue
             seen.add(x)
             yield x
+            if self.nodes[x]["k"] == "LambdaExpr" and x != i and not WALK_INTO_LAMBDAS:
+                continue        # the body of a lambda is a function of its own (extracted separately); it does not execute here
             st.extend(reversed(self.ch(x)))
 
     def strip(self, i, casts=True):
@@ -530,6 +785,11 @@ class Function:
             return "return %s" % (R(c[0]) if c else "")
         if k == "CXXThrowExpr":
             return "throw %s" % (R(c[0]) if c else "")
+        if k == "DeclStmt" and getattr(self, "_effects", False):
+            nm = getattr(self, "_names", None) or {}
+            return "; ".join("(%s = %s)" % (nm.get(d.get("id"), d.get("name", "")), R(d["init"])) for d in n.get("decls", []) if d.get("init", -1) >= 0)
+        if k == "CompoundStmt" and getattr(self, "_effects", False):
+            return "CompoundStmt(%s)" % ", ".join(t for t in (R(x) for x in c) if t)
         if k == "DeclStmt":
             nm = getattr(self, "_names", None) or {}
             return "; ".join("%s %s%s" % (d.get("type", ""), nm.get(d.get("id"), d.get("name", "")),
@@ -541,10 +801,14 @@ class Function:
             return "%s(%s)" % (k, ", ".join(R(x) for x in c))
         return k
 
-    def alpha(self, i):
+    def alpha(self, i, effects=False):
         """render with locals renamed v0, v1, ... by first occurrence and parameters renamed $k by position:
-        insensitive to renaming of locals.  Returns (text, [decl ids in order of first occurrence])."""
+        insensitive to renaming of locals.  Returns (text, [decl ids in order of first occurrence]).
+        effects=True renders what the statements do rather than how they are declared: a declaration without initialiser is
+        left out (and does not count as an occurrence), a declaration with one reads `(v = init)` — so `T v; ... v = e;` and
+        `... T v = e;` give the same text."""
         order = []
+        self._effects = effects
         names = {}
         pidx = {p["id"]: k for k, p in enumerate(self.params)}
         for x in self.walk(i):
@@ -558,6 +822,8 @@ class Function:
                     order.append(d["id"])
             elif n["k"] == "DeclStmt":
                 for d in n["decls"]:
+                    if effects and d.get("init", -1) < 0:
+                        continue
                     if d.get("dk") == "Var" and d["id"] not in names:
                         names[d["id"]] = "v%d" % len(order)
                         order.append(d["id"])
@@ -566,6 +832,7 @@ class Function:
             t = self.render(i)
         finally:
             self._names = None
+            self._effects = False
         return t.replace("this->", ""), order
 
     def var_name(self, vid):
@@ -671,6 +938,137 @@ class Program:
             for g in d["globals"]:
                 self.globals.setdefault(g["qname"], g)
         self._maythrow = None
+        if NORMALIZE_CALLS:
+            self._inline_expression_functions()
+
+    # N7: a call to a function of the repository whose whole body is `return <expression>;` (a free or static function, or a lambda that
+    #     the caller defines) is replaced by that expression with the arguments substituted — provided the arguments have no side
+    #     effects.  The copied calls are entered into the caller's CFG block in front of the original call element, so analyses that
+    #     walk CFG elements still see them.
+    def _inline_expression_functions(self):
+        cands = {}
+        everything = [f for v in self.variants.values() for f in v.values()]
+        for g in everything:
+            if not g.file.startswith(REPO) or g.body is None or g.body < 0:
+                continue
+            b = g.nodes[g.body]
+            kids = [x for x in b.get("ch", []) if x >= 0] if b["k"] == "CompoundStmt" else []
+            if len(kids) != 1 or g.nodes[kids[0]]["k"] != "ReturnStmt" or not g.ch(kids[0]):
+                continue
+            # only helpers private to one translation unit or one function: a lambda, a static function, one in an anonymous namespace
+            # (an exported function is an interface: rules name it, and its callers are not rewritten)
+            if not (g.kind == "lambda" or (g.kind == "function" and (g.d.get("static") or re.match(r"c:[^@]+\.(c|cc|cpp|cxx|h|hpp)@", g.usr)))):
+                continue
+            expr = g.ch(kids[0])[0]
+            if any(g.nodes[x]["k"] in ("LambdaExpr", "CXXThisExpr", "CXXNewExpr", "CXXDeleteExpr", "CXXThrowExpr", "StmtExpr") for x in g.walk(expr)):
+                continue
+            if any((g.nodes[x].get("callee") or {}).get("usr") == g.usr for x in g.walk(expr)):
+                continue                      # recursive
+            cands.setdefault((g.unit, g.usr), (g, expr))
+        if not cands:
+            return
+        pure_kinds_bad = ("CompoundAssignOperator", "CXXNewExpr", "CXXDeleteExpr", "CXXThrowExpr", "LambdaExpr", "StmtExpr")
+        for f in everything:
+            if not f.file.startswith(REPO):
+                continue
+            changed = False
+            for i in list(f.walk()):
+                n = f.nodes[i]
+                cal = n.get("callee")
+                if not cal or (f.unit, cal.get("usr")) not in cands:
+                    continue
+                g, expr = cands[(f.unit, cal["usr"])]
+                if g is f:
+                    continue
+                if n["k"] == "CallExpr":
+                    args = n["ch"][1:]
+                elif n["k"] == "CXXOperatorCallExpr" and n.get("opcall") == "()" and g.kind == "lambda":
+                    args = n["ch"][2:]
+                else:
+                    continue
+                if len(args) != len(g.params) or any(a < 0 for a in args):
+                    continue
+
+                def pure(a):
+                    for x in f.walk(a):
+                        m = f.nodes[x]
+                        if m["k"] in pure_kinds_bad or (m["k"] == "BinaryOperator" and m.get("op") == "=") or \
+                                (m["k"] == "UnaryOperator" and m.get("op") in ("++", "--")):
+                            return False
+                    return True
+                if not all(pure(a) for a in args):
+                    continue
+                pid = {p["id"]: k for k, p in enumerate(g.params)}
+                # decls of the caller by name (for variables a lambda captures)
+                byname = {p["name"]: dict(kind="ParmVar", name=p["name"], id=p["id"], type=p.get("type", "")) for p in f.params}
+                for x in f.walk():
+                    m = f.nodes[x]
+                    if m["k"] == "DeclRefExpr" and m["decl"].get("kind") in ("Var", "ParmVar"):
+                        byname.setdefault(m["decl"]["name"], m["decl"])
+                    elif m["k"] == "DeclStmt":
+                        for dd in m["decls"]:
+                            if dd.get("dk") == "Var":
+                                byname.setdefault(dd["name"], dict(kind="Var", name=dd["name"], id=dd["id"], type=dd.get("type", "")))
+                ok = True
+                m_ = {}
+                new_nodes = []
+                used = set()
+                base = len(f.nodes)
+                order = list(g.walk(expr))
+                for x in order:
+                    m_[x] = base + len(new_nodes)
+                    new_nodes.append(dict(g.nodes[x]))
+                for x in order:
+                    nn = new_nodes[m_[x] - base]
+                    nn["ch"] = [m_.get(c, -1) for c in nn["ch"]]
+                    for key in ("cond", "then", "else", "init", "inc", "body"):
+                        if key in nn and isinstance(nn[key], int):
+                            nn[key] = m_.get(nn[key], -1)
+                    nn["loc"] = n["loc"]
+                    nn["f"] = n.get("f")
+                    nn["inlinedFrom"] = g.name
+                    if nn["k"] == "DeclRefExpr" and nn["decl"].get("kind") in ("Var", "ParmVar"):
+                        d = nn["decl"]
+                        if d.get("kind") == "ParmVar" and d.get("id") in pid and g.params[pid[d["id"]]]["name"] == d.get("name"):
+                            k = pid[d["id"]]
+                            nn["k"] = "ParenExpr"
+                            nn["argOf"] = g.params[k]["name"]
+                            nn["ch"] = [args[k]] if k not in used else [("copy", args[k])]
+                            used.add(k)
+                        elif g.kind == "lambda" and d.get("name") in byname:
+                            nn["decl"] = dict(byname[d["name"]])
+                        else:
+                            ok = False
+                if not ok:
+                    continue
+                f.nodes.extend(new_nodes)
+                for nn in new_nodes:
+                    if nn["ch"] and isinstance(nn["ch"][0], tuple):
+                        nn["ch"] = [f._copy_subtree(nn["ch"][0][1])]
+                root = m_[expr]
+                # constant values show through the substituted parameters (bottom-up over the copied nodes)
+                for k in range(len(new_nodes) - 1, -1, -1):
+                    nn = new_nodes[k]
+                    if "cv" not in nn and nn["k"] in TRANSPARENT and nn["ch"] and nn["ch"][0] >= 0 and "cv" in f.nodes[nn["ch"][0]]:
+                        nn["cv"] = f.nodes[nn["ch"][0]]["cv"]
+                n["inlinedCall"] = cal["name"]
+                n["k"] = "ParenExpr"
+                n["ch"] = [root]
+                n.pop("callee", None)
+                n.pop("opcall", None)
+                # CFG: the copied calls become elements in front of the original call element
+                if f.cfg:
+                    for blk in f.cfg["blocks"]:
+                        for j, e in enumerate(blk["elems"]):
+                            if e.get("kind") == "stmt" and e.get("n") == i:
+                                extra = [dict(kind="stmt", n=base + k) for k, nn in reversed(list(enumerate(new_nodes)))
+                                         if "callee" in nn or nn["k"] in ("CXXOperatorCallExpr", "CXXMemberCallExpr", "CallExpr", "ConditionalOperator", "BinaryOperator")]
+                                blk["elems"][j:j] = extra
+                                break
+                changed = True
+            if changed:
+                f._parent = None
+                f._blocks = None
 
     def fns(self, name=None, qname_contains=None, unit=None, file_endswith=None):
         out = []
